@@ -16,15 +16,15 @@
     must be an ASCII letter, the name `LATIN SMALL/CAPITAL LETTER L WITH <first name part of the
     accent>` is looked up (`unicodedata.lookup`, translated to `T.unicodeNames`) and ONE text token
     with the result is APPENDED TO THE OUTPUT (it is not pushed back, so it is not scanned or
-    expanded again), position = position of the backslash, position-counting (`pos_fix` of the
-    accent token, i.e. `false`).  No Action token is left, nothing behind the call is skipped
-    (`\"{a} b` keeps its blank), the state is unchanged.
+    expanded again), position = position of the backslash; the token is position-counting
+    (`pos_fix` of the accent token, i.e. `false`) if the value is one character and PINNED
+    (`pos_fix = True`) if it has more.  No Action token is left, nothing behind the call is
+    skipped (`\"{a} b` keeps its blank), the state is unchanged.
     NB: for seven names of the real tables (`\~{l}`, `\~{m}`, `\~{r}`, `\~{J}`, `\~{L}`, `\~{M}`,
     `\~{R}`) `unicodedata.lookup` returns a NAMED SEQUENCE of two code points (letter + combining
-    tilde); because the token is position-counting the second one is mapped to the position of
-    the character BEHIND the backslash.  The theorem follows the model: the value `u` is mapped
-    to `p, p+1, …` (`posText p u`); `refOut_acc_single` / the `_current` facts say when it is
-    one character.
+    tilde).  Before the repair `pos_fix=tok.pos_fix or len(u) > 1` the second one was mapped to the
+    character BEHIND the backslash (a defect found with this development); now EVERY character of
+    the value is mapped to the backslash (`tokChars_resTok`).
   * SHORT MACROS (`Parser.expand_short_macro`, `expandShortMacro`).  A text token whose text is an
     "active character" of the current language settings (German: `"`) is joined with the text of
     the NEXT TOKEN; if that string is a key of `short_macros`, both tokens are replaced by one text
@@ -43,8 +43,8 @@
     `accentName`, `accentChar T acc l`   the table look-up of the accent code (`Option Str`)
     `shortVal T st k`   the table look-up of the short macros of the language settings in force
     `refOut T st p segs`  THE REFERENCE: characters with (0-based) positions — text with its own
-                        positions, an accent call at `p` ↦ `posText p u`, a shorthand at `p` ↦ every
-                        character of the value at `p`
+                        positions, an accent call or a shorthand at `p` ↦ every character of
+                        the table value at `p`
   Expander level
     `argBuffer_acc`, `expandAccent_letter`, `seq_acc_step`, `seq_sh_step`, `Piece`, `PiecesOk`,
     `outP`, `cost`, `seq_pieces`
@@ -56,7 +56,7 @@
     `refOut_txt`, `refOut_acc_single`, `refOut_sh`   the defining equations
     `noSh`, `refAcc`, `refOut_noSh`   documents without shorthands: a reference without parser state
     `spans`, `refOut_pos_first`       no output position lies inside a replaced sequence behind its
-                                      first character (accent values of one character)
+                                      first character
 
   The end-to-end statement `tex2txt_replaced`: `tex2txt` succeeds, `r.txt` / `r.pos` are the two
   components of `refOut T st1 0 segs` (positions + 1), `r.unknowns = []`, `r.diags = st1.diags`.
@@ -176,8 +176,10 @@ theorem accFacts {T : PTables} {acc : Str} {l : Char} {u : Str} (h : accentChar 
 
 def letTok (p : Nat) (c : Char) : Tok := { kind := .text, pos := p, txt := [c] }
 def accTok (p : Nat) (name : Str) : Tok := { kind := .accent, pos := p, txt := '\\' :: name }
-/-- the text token `expand_accent` returns: position-counting -/
-def resTok (p : Nat) (u : Str) : Tok := { kind := .text, pos := p, txt := u }
+/-- the text token `expand_accent` returns: pinned to the accent macro if the value has more
+    than one character -/
+def resTok (p : Nat) (u : Str) : Tok :=
+  { kind := .text, pos := p, txt := u, fix := decide (1 < u.length) }
 def spTok (p : Nat) (ws : Str) : Tok := { kind := .space, pos := p, txt := ws }
 
 /-- the argument of an accent call: the letter, or `{`, the letter, `}` -/
@@ -240,7 +242,8 @@ theorem expandAccent_letter (T : PTables) (fuel : Nat) (sp : List Tok)
     (rest : Buf) (tok : Tok) (u : Str) (st : PState)
     (hu : accentChar T tok.txt l = some u) :
     expandAccent T (fuel + 3) (sp ++ (argT br q l ++ rest)) tok st
-      = .ok (([{ kind := .text, pos := tok.pos, txt := u, fix := tok.fix }], rest), st) := by
+      = .ok (([{ kind := .text, pos := tok.pos, txt := u,
+                 fix := tok.fix || decide (1 < u.length) }], rest), st) := by
   obtain ⟨hl, e, n0, x, he, hn, hx, hxu⟩ := accFacts hu
   have hns := letter_not_structural hl
   have hsp' := letter_not_space hl
@@ -503,13 +506,13 @@ def accLen (name ws : Str) (br : Bool) : Nat := 1 + name.length + ws.length + (a
 /-- **the reference output**: the characters of the output with their (0-based) source positions,
     for a document that starts at position `p`.  Text is copied with its own positions; an accent
     call whose backslash stands at `p` yields the character(s) `accentChar T \name l` of the
-    tables at `p` (, `p+1`); a shorthand whose first character stands at `p` yields the value
+    tables, every one at `p`; a shorthand whose first character stands at `p` yields the value
     of the short-macro table, every character of it at `p`. -/
 def refOut (T : PTables) (st : PState) : Nat → List Seg → List (Char × Nat)
   | _, [] => []
   | p, .txt s :: rest => posText p s ++ refOut T st (p + s.length) rest
   | p, .acc name ws br l :: rest =>
-    posText p (accVal T name l) ++ refOut T st (p + accLen name ws br) rest
+    (accVal T name l).map (fun x => (x, p)) ++ refOut T st (p + accLen name ws br) rest
   | p, .sh a c :: rest => (shVal T st [a, c]).map (fun x => (x, p)) ++ refOut T st (p + 2) rest
 
 /-! ### the side conditions -/
@@ -618,7 +621,8 @@ inductive OkSrc (T : PTables) (st : PState) : Nat → Str → List (Char × Nat)
       okAtX T st c cs = true → OkSrc T st (p + 1) cs vs → OkSrc T st p (c :: cs) ((c, p) :: vs)
   | acc (p : Nat) (name ws : Str) (br : Bool) (l : Char) (R : Str) (vs : List (Char × Nat)) :
       accOk T name ws br l R = true → OkSrc T st (p + accLen name ws br) R vs →
-      OkSrc T st p ('\\' :: (name ++ (ws ++ (argStr br l ++ R)))) (posText p (accVal T name l) ++ vs)
+      OkSrc T st p ('\\' :: (name ++ (ws ++ (argStr br l ++ R))))
+        ((accVal T name l).map (fun x => (x, p)) ++ vs)
   | sh (p : Nat) (a c : Char) (R : Str) (vs : List (Char × Nat)) :
       shOk T st a c R = true → OkSrc T st (p + 2) R vs →
       OkSrc T st p (a :: c :: R) ((shVal T st [a, c]).map (fun x => (x, p)) ++ vs)
@@ -932,6 +936,18 @@ theorem tokChars_mkFix (k : Kind) (p : Nat) (v : Str) :
   | nil => rfl
   | cons c cs ih => simp [List.replicate_succ, ih]
 
+/-- every character of the result of an accent call stands at the position of the call -/
+theorem tokChars_resTok (p : Nat) (u : Str) : tokChars (resTok p u) = u.map (fun c => (c, p)) := by
+  by_cases h : 1 < u.length
+  · have : resTok p u = mkFix .text p u := by simp [resTok, mkFix, h]
+    rw [this, tokChars_mkFix]
+  · have hf : (resTok p u).fix = false := by simp [resTok, h]
+    rw [tokChars_nofix _ hf]
+    match u, h with
+    | [], _ => rfl
+    | [c], _ => rfl
+    | _ :: _ :: _, h => simp at h
+
 /-- what the scanner loop yields on a well-formed source, and what the token buffer means -/
 structure ScanFacts (T : PTables) (st : PState) (rest : Str) (vs : List (Char × Nat))
     (steps : List ScanStep) : Prop where
@@ -1066,8 +1082,7 @@ theorem scanSteps_segs (T : PTables) (st : PState) (src : Str) :
               ⟨F.an, wsSteps_kind _ _, F.val, hpok⟩, ?_, ?_, ?_⟩
           · simp [flat, Piece.toks, hflat, accSteps, argSteps_toks]
           · simp only [outP]
-            rw [charsOf_cons, tokChars_nofix _ rfl, hchars]
-            rfl
+            rw [charsOf_cons, tokChars_resTok, hchars]
           · intro x hx
             simp only [outP, List.mem_cons] at hx
             rcases hx with rfl | hx
@@ -1239,7 +1254,7 @@ theorem tex2txt_replaced (T : PTables) (o : Options) (fs : FS) (thresh : Nat) (s
 theorem refOut_acc_single (T : PTables) (st : PState) (p : Nat) (name ws : Str) (br : Bool) (l ch : Char)
     (rest : List Seg) (h : accentChar T ('\\' :: name) l = some [ch]) :
     refOut T st p (.acc name ws br l :: rest) = (ch, p) :: refOut T st (p + accLen name ws br) rest := by
-  simp [refOut, accVal, h, posText]
+  simp [refOut, accVal, h]
 
 /-- a shorthand with the table value `v`: every character of `v` at the position of the first
     character of the shorthand (nothing, if `v` is empty) -/
@@ -1260,12 +1275,13 @@ def noSh : List Seg → Bool
 
 /-- the reference for documents of text and accent calls (no parser state involved): text with its
     own positions; a call `\name…l` whose backslash stands at `p` ↦ the character(s)
-    `accentChar T \name l` at `p` -/
+    `accentChar T \name l`, every one at `p` -/
 def refAcc (T : PTables) : Nat → List Seg → List (Char × Nat)
   | _, [] => []
   | p, .txt s :: rest => posText p s ++ refAcc T (p + s.length) rest
   | p, .acc name ws br l :: rest =>
-    posText p ((accentChar T ('\\' :: name) l).getD []) ++ refAcc T (p + accLen name ws br) rest
+    ((accentChar T ('\\' :: name) l).getD []).map (fun x => (x, p))
+      ++ refAcc T (p + accLen name ws br) rest
   | p, .sh _ _ :: rest => refAcc T (p + 2) rest
 
 theorem refOut_noSh (T : PTables) (st : PState) : ∀ (segs : List Seg) (p : Nat), noSh segs = true →
@@ -1306,9 +1322,9 @@ theorem refOut_ge (T : PTables) (st : PState) {cp : Char × Nat} : ∀ {segs : L
     · exact (mem_posText' h).1
     · have := refOut_ge T st h; omega
   | .acc name ws br l :: rest, p, h => by
-    simp only [refOut, List.mem_append] at h
-    rcases h with h | h
-    · exact (mem_posText' h).1
+    simp only [refOut, List.mem_append, List.mem_map] at h
+    rcases h with ⟨x, _, rfl⟩ | h
+    · simp
     · have := refOut_ge T st h; omega
   | .sh a c :: rest, p, h => by
     simp only [refOut, List.mem_append, List.mem_map] at h
@@ -1332,40 +1348,34 @@ theorem spans_ge {q : Nat × Nat} : ∀ {segs : List Seg} {p : Nat}, q ∈ spans
     · simp
     · have := spans_ge h; omega
 
-/-- **an output position inside a replaced sequence is its FIRST character** — provided the
-    table values of the accent calls are single characters (`hsingle`; for a two-character value
-    the second character is mapped to the second character of the call, see the header) -/
+/-- **an output position inside a replaced sequence is its FIRST character**: no output
+    position lies inside an accent call or a shorthand behind its first character -/
 theorem refOut_pos_first (T : PTables) (st : PState) {cp : Char × Nat} {q : Nat × Nat} :
     ∀ {segs : List Seg} {p : Nat},
-    (∀ sg ∈ segs, match sg with
-      | .acc name _ _ l => (accVal T name l).length ≤ 1
-      | _ => True) →
     cp ∈ refOut T st p segs → q ∈ spans p segs → cp.2 ≤ q.1 ∨ q.1 + q.2 ≤ cp.2
-  | [], _, _, h, _ => by simp [refOut] at h
-  | .txt s :: rest, p, hs, h, hq => by
+  | [], _, h, _ => by simp [refOut] at h
+  | .txt s :: rest, p, h, hq => by
     simp only [refOut, List.mem_append] at h
     simp only [spans] at hq
     rcases h with h | h
     · have := (mem_posText' h).2
       have := spans_ge hq
       left; omega
-    · exact refOut_pos_first T st (fun sg hsg => hs sg (List.mem_cons_of_mem _ hsg)) h hq
-  | .acc name ws br l :: rest, p, hs, h, hq => by
-    simp only [refOut, List.mem_append] at h
+    · exact refOut_pos_first T st h hq
+  | .acc name ws br l :: rest, p, h, hq => by
+    simp only [refOut, List.mem_append, List.mem_map] at h
     simp only [spans, List.mem_cons] at hq
-    have h1 : (accVal T name l).length ≤ 1 := hs (.acc name ws br l) (List.mem_cons_self ..)
     have hlen := accLen_ge name ws br
-    rcases h with h | h
-    · have hb := mem_posText' h
-      rcases hq with rfl | hq
-      · left; simp only; omega
+    rcases h with ⟨x, _, rfl⟩ | h
+    · rcases hq with rfl | hq
+      · left; simp
       · have := spans_ge hq
-        left; omega
+        left; simp only; omega
     · rcases hq with rfl | hq
       · have := refOut_ge T st h
         right; simpa using this
-      · exact refOut_pos_first T st (fun sg hsg => hs sg (List.mem_cons_of_mem _ hsg)) h hq
-  | .sh a c :: rest, p, hs, h, hq => by
+      · exact refOut_pos_first T st h hq
+  | .sh a c :: rest, p, h, hq => by
     simp only [refOut, List.mem_append, List.mem_map] at h
     simp only [spans, List.mem_cons] at hq
     rcases h with ⟨x, _, rfl⟩ | h
@@ -1376,7 +1386,7 @@ theorem refOut_pos_first (T : PTables) (st : PState) {cp : Char × Nat} {q : Nat
     · rcases hq with rfl | hq
       · have := refOut_ge T st h
         right; simpa using this
-      · exact refOut_pos_first T st (fun sg hsg => hs sg (List.mem_cons_of_mem _ hsg)) h hq
+      · exact refOut_pos_first T st h hq
 
 end PlainAccent
 end Yalafi
